@@ -12,6 +12,16 @@ NOT_APPLICABLE = {pid: "monitor under construction in this round: no check is re
                   for pid in ["C%02d" % i for i in range(1, 19)]}
 
 PROPS = {
+    "C01": {
+        "technique": "runtime monitoring: staged zero-noise SQLite execution of the DP-rewritten query on D and on neighbouring databases (one privacy unit removed / added), released-key stage of D pinned into the neighbour run; the L2 distance over all groups between the pre-noise vectors of each noised column is compared with the clipping bound the noise was calibrated with",
+        "level_text": "Exploration: ~15k neighbouring pairs per quick run on databases built to hurt (units with up to 15 rows while the multiplicity estimate is 1-5, values at the declared extremes, units present in every group, NULLs, dangling keys, row privacy), DP queries with sum/count/avg/var/std, DISTINCT splits, 0-2 keys (public, private, mixed), joins along the privacy-unit path and with public tables; clipping is active in roughly 40% of the measured differences.",
+        "level_note": "Trusted: SQLite + compatibility layer, the IR matcher locating noise nodes and their input stage, the independent unit attribution, the hook event carrying the clipping bound (sigma itself is read from the IR and tied to the bound by C03).",
+        "rule": ("2 DP queries per world x up to 7 neighbours (6 removals + 1 added unit); evaluation = one neighbouring pair; "
+                 "distinct non-trivial = distinct (query, parameters, instance) for which some removal changes a pre-noise column."),
+        "assumptions": COMMON_ASSUME + ["clamping of the noised value to the declared range happens after the noise (1-Lipschitz, ignored)"],
+        "quick": {"shards": 16, "cases": 180, "watchdog_s": 1500, "require": {"evaluations": 10000, "nonzero_differences": 15000, "differences_above_half_the_bound(clipping active)": 5000}},
+        "thorough": {"shards": 16, "cases": 6000, "watchdog_s": 14400, "require": {"evaluations": 400000}},
+    },
     "C02": {
         "technique": "runtime monitoring: (1) label-flow invariants over every consistent derivation of generated trees, (2) rewriter-arm observations of the applied derivation through hook events, (3) channel-cut non-interference on SQLite executions of the DP-rewritten query",
         "level_text": "Exploration: ~25k tree configurations per quick run for the label-flow and arm monitors: for each consistent derivation, a protected table is never labelled Public/Published/DP, no node labelled Public/Published depends on a protected table without a PUP->DP reduce in between, DP labels only on reduces over PUP inputs; for the applied derivation, PUP-labelled nodes carry the privacy-unit columns, synthetic tables are substituted, DP reduces go through the DP aggregation, the root label is acceptable.",
